@@ -435,9 +435,10 @@ Definition tobserve_gen (fx : bool) (d : nat) (t : atree) (nv : list nv_entry) (
   | Some ns, Some ovs => finish (render fx ovs ns) (tcollect_edges t) ev
   | _, _ => ORaised
   end.
-(* One-line switch, read by harness/c07.py (overridable by VERIF_C07_D97_FIXED): false = the code as it is (int-declared
-   variables truncate the values they are given), true = the repair /verif/fixes/fix_D97.diff. *)
-Definition fixed_D97 : bool := false.
+(* One-line switch, read by harness/c07.py (overridable by VERIF_C07_D97_FIXED): true since fix D97 (the dtype of an
+   int-declared variable follows the value it is given); false = the mechanism before D97 (values truncated to int), kept
+   for the `_before_fix` statements. *)
+Definition fixed_D97 : bool := true.
 Definition observe := observe_gen true.      (* the measurement used by C14 (its templates declare floats) *)
 Definition tobserve := tobserve_gen true.
 
